@@ -119,3 +119,71 @@ standard_write = Contract(
 )
 
 CONTRACTS = [standard_write, lower_expr, get_operation, arithmetic, const, memory_write, mem_sig_type, coerce]
+
+# =================================================================================================
+# MemoryBuilder._create_standard_memory: the cell is two copy-mode deciders on the cell's signal,
+# the write gate passing its input while the reserved enable signal-W is positive and the hold gate
+# while it is zero — for every enable value >= 0 exactly one of them passes (C03: follows v / keeps the value).
+# =================================================================================================
+from spec import arith32 as _A, ops  # noqa: E402
+
+MBQ = "dsl_compiler/src/layout/memory_builder.py::MemoryBuilder."
+GATES = []
+
+
+def _gate_effect(ex, a):
+    GATES.append({k: getattr(a, k) for k in ("ir_node_id", "entity_type", "role", "operation", "left_operand", "right_operand", "output_signal", "copy_count_from_input")})
+    return SObj(["EntityPlacement"], fresh_name("gate"), lazy=True)
+
+
+_OPQ3 = ty.TOpaque("x")
+gate_placement = Contract(
+    qualname="dsl_compiler/src/layout/layout_plan.py::LayoutPlan.create_and_add_placement",
+    params={"self": _OPQ3, "ir_node_id": _OPQ3, "entity_type": _OPQ3, "position": _OPQ3, "footprint": _OPQ3, "role": _OPQ3, "debug_info": _OPQ3,
+            "operation": _OPQ3, "left_operand": _OPQ3, "right_operand": _OPQ3, "output_signal": _OPQ3, "copy_count_from_input": _OPQ3},
+    effect=_gate_effect, verify=False, note="records the placement properties")
+CAPN = {}
+
+
+def _name_effect(ex, a):
+    v = z3.String(fresh_name("cell_signal_name"))
+    CAPN["name"] = v
+    return v
+
+
+cell_name = Contract(qualname="dsl_compiler/src/layout/signal_analyzer.py::SignalAnalyzer.get_signal_name", params={"self": _OPQ3, "signal_type": _OPQ3},
+                     effect=_name_effect, verify=False, note="name lookup")
+
+
+def _gates_post(a, res):
+    if len(GATES) != 2:
+        return False
+    wg = [g for g in GATES if g["role"] == "memory_write_gate"]
+    hg = [g for g in GATES if g["role"] == "memory_hold_gate"]
+    if len(wg) != 1 or len(hg) != 1:
+        return False
+    wg, hg = wg[0], hg[0]
+    W = z3.Int("W")
+    cs = []
+    for g in (wg, hg):
+        cs += [g["entity_type"] == "constant-combinator" or g["entity_type"] == "decider-combinator", g["left_operand"] == "signal-W",
+               g["copy_count_from_input"] is True, g["output_signal"] is CAPN.get("name")]
+    pass_w = _A.cmp(wg["operation"], W, wg["right_operand"])
+    pass_h = _A.cmp(hg["operation"], W, hg["right_operand"])
+    sem = Implies(W >= 0, And(ops.Iff(pass_w, W > 0), ops.Iff(pass_h, W == 0)))
+    return And(*cs, sem, res.write_gate is not None, res.hold_gate is not None, res.signal_type is CAPN.get("name"))
+
+
+create_standard = Contract(
+    qualname=MBQ + "_create_standard_memory",
+    params={"self": ty.TObj("MemoryBuilder", only=("MemoryBuilder",)), "op": ty.TObj("IRMemCreate", only=("IRMemCreate",)), "signal_graph": ty.TOpaque("graph")},
+    requires=[("(reset capture)", lambda a: (GATES.clear(), CAPN.clear()) and True)],
+    ensures=[("write gate passes iff W > 0, hold gate iff W = 0 (W >= 0), both copy the cell's signal", _gates_post)],
+    uses={"LayoutPlan.create_and_add_placement": gate_placement, "SignalAnalyzer.get_signal_name": cell_name, "MemoryBuilder._make_debug_info": "skip",
+          "opaque.set_source": "skip"},
+    dynamic_types={"self": {"layout_plan": ty.TObj("LayoutPlan", only=("LayoutPlan",)), "signal_analyzer": ty.TObj("SignalAnalyzer", only=("SignalAnalyzer",)),
+                            "_modules": ty.TObjMap(ty.Str, ty.TObj("MemoryModule", only=("MemoryModule",)))},
+                   "op": {"memory_id": ty.Str, "signal_type": ty.Str}},
+    properties=("C03",), min_obligations=1, no_replay=True,
+)
+CONTRACTS += [create_standard, gate_placement, cell_name]
